@@ -71,11 +71,17 @@ func runThreshold(t *testing.T, rc *RunCtx) {
 		}
 		decoy = AttEntry(0, 1, 2, 777)
 		decoy.AddrPath = decoyPath
-		s.Direct(func() {
-			for _, nd := range c.Nodes {
-				(&Op{Kind: "att", Client: "client1", Entries: []Entry{decoy}}).Exec(nd.Inst)
-			}
-		})
+		// Half of the time the decoy's duty has been signed everywhere already (it is refused in the batches); otherwise
+		// the decoy is an account nothing was ever recorded for, and its first duty rides in the batch.
+		if ch.Pick(2, 0) == 0 {
+			s.Direct(func() {
+				for _, nd := range c.Nodes {
+					(&Op{Kind: "att", Client: "client1", Entries: []Entry{decoy}}).Exec(nd.Inst)
+				}
+			})
+		} else {
+			rc.Stats.Inc("probe_decoy_account_without_history", 1)
+		}
 		rc.Stats.Inc("probe_decoy_account", 1)
 	}
 	// Swarm variant: the validator already has history on every instance (an earlier attestation and block,
@@ -181,6 +187,48 @@ func runThreshold(t *testing.T, rc *RunCtx) {
 			plan = append(plan, [2]int{ch.Pick(n, 0), ch.Pick(2, 0)})
 		}
 	}
+	crashRestart := func(nd *Node) {
+		img := NewRunDir(t)
+		if err := CopyDir(nd.Inst.Cfg.Dir, img); err != nil {
+			t.Fatalf("copy: %v", err)
+		}
+		nd.Inst.Dead = true
+		nd.Inst.Close()
+		c.startNode(nd, img)
+		rc.Stats.Inc("crash_restarts", 1)
+	}
+	// Swarm variant: before the routing proper, one duty reaches some instances in a batch whose second entry
+	// has a domain shorter than a domain type, in a slice of exactly that capacity (a caller inside the process;
+	// the wire decoder never produces one). Where the request ends in a panic the daemon is dead: it released
+	// nothing, and the instance comes back from what is on its disk.
+	if kind == "att" && ch.Pick(4, 0) == 3 {
+		duty := ch.Pick(2, 0)
+		all := ch.Pick(2, 0) == 1
+		for _, nd := range c.Nodes {
+			if !all && ch.Pick(2, 0) == 0 {
+				continue
+			}
+			e := *duties[duty]
+			e.AddrPath = path
+			bad := AttEntry(0, base+7, base+8, 99)
+			bad.AddrPath = path
+			if decoyPath != "" {
+				bad.AddrPath = decoyPath
+			}
+			bad.Domain = make([]byte, 1+ch.Pick(3, 0))
+			bad.Domain[0] = byte(ch.Pick(3, 0))
+			r := &reqRec{duty: duty, node: nd, op: &Op{Kind: "atts", Client: "client1", Entries: []Entry{e, bad}}, phase: -1}
+			inst := nd.Inst
+			s.Direct(func() { r.res = r.op.Exec(inst) })
+			rc.Stats.Inc("probe_batch_with_short_domain_entry", 1)
+			if r.res.Panic != "" {
+				rc.Stats.Inc("daemon_died_on_short_domain", 1)
+				crashRestart(nd)
+				continue
+			}
+			reqs = append(reqs, r)
+		}
+	}
 	faultsOn = true
 	submit(0, plan)
 	if o := s.Run(); o != "done" {
@@ -200,15 +248,8 @@ func runThreshold(t *testing.T, rc *RunCtx) {
 				restarts++
 				rc.Stats.Inc("clean_restarts", 1)
 			case 2:
-				img := NewRunDir(t)
-				if err := CopyDir(nd.Inst.Cfg.Dir, img); err != nil {
-					t.Fatalf("copy: %v", err)
-				}
-				nd.Inst.Dead = true
-				nd.Inst.Close()
-				c.startNode(nd, img)
+				crashRestart(nd)
 				restarts++
-				rc.Stats.Inc("crash_restarts", 1)
 			}
 		}
 	}
